@@ -109,7 +109,7 @@ def main():
                 try: results.append(json.load(open(out)))
                 except Exception: results.append({"name": n, "verdict": "inconclusive", "why": "worker died: " + (p.stderr.read() or "")[-500:]})
     out = {"results": results, "stats": {"mir_dump_s": round(dump_s, 1), "queries": len(names), "wall_s": round(time.time() - t0, 1), "mir_file": path,
-                                           "translator_selfcheck": {"sequential_scripts_compared_native_vs_encoding": sc["compared"], "mismatches": sc["mismatches"], "seconds": sc["seconds"]}}}
+                                           "translator_selfcheck": {"sequential_scripts_compared_native_vs_encoding": sc["compared"], "mismatches": sc["mismatches"], "skipped": sc.get("skipped", []), "seconds": sc["seconds"]}}}
     if sc["mismatches"]: out["error"] = "translator self-check failed (the encoding disagrees with the real code): " + "; ".join(sc["mismatches"])[:1500]
     print(json.dumps(out, default=str))
 
